@@ -6,7 +6,8 @@ import random
 import numpy as np
 
 from runtime import e2e
-from runtime.scopes import StandIn
+from runtime import rt
+from runtime.scopes import REPLAY, StandIn
 
 CHEAP = ["halton", "random", "rseq", "best"]
 
@@ -116,6 +117,53 @@ StandIn("C02/history", "C02",
         _c02_cases, _c02_check)
 StandIn("C09/round-robin-e2e", "C09", "same runs as C02/history: batch i produced by sampler i mod n with its batch size",
         "80 configurations", _c02_cases, _c02_check)
+
+
+def _c09r_cases(tier, seed):
+    rnd = random.Random(seed + 909)
+    for i in range(8 if tier == "quick" else 80):
+        n_s = rnd.randint(2, 4)
+        kinds = [rnd.choice(["halton", "random", "rseq"]) for _ in range(n_s)]
+        yield {"lineup": [(k, b + 1) for b, k in enumerate(kinds)],     # pairwise different batch sizes
+               "segments": [rnd.randint(1, 3) for _ in range(rnd.randint(2, 4))], "seed": rnd.randrange(1000)}
+
+
+def _c09r_check(reg, case):
+    """Round robin over a whole life: calibrate(k1); restore; calibrate(k2); restore; ... - batch i (counted over all
+    segments) must have the batch size of sampler i mod n and carry its label."""
+    import warnings
+
+    from black_it.calibrator import Calibrator
+    with e2e.tmp_folder() as d, warnings.catch_warnings():
+        warnings.simplefilter("ignore")
+        cfg = {"lineup": case["lineup"], "E": 1, "dims": 2, "seed": case["seed"], "folder": d, "N": 6}
+        cal, _m, _l, samplers = e2e.make_calibrator(cfg, model=e2e.pure_model)
+        table = dict(cal.samplers_id_table)
+        for k, nb in enumerate(case["segments"]):
+            if k > 0:
+                with e2e.quiet():
+                    cal = Calibrator.restore_from_checkpoint(d, model=e2e.pure_model)
+            with e2e.quiet():
+                cal.calibrate(nb)
+        total = sum(case["segments"])
+        if cal.current_batch_index != total:
+            return f"{cal.current_batch_index} batches counted after segments {case['segments']}"
+        n_s = len(samplers)
+        for b in range(total):
+            rows = np.flatnonzero(cal.batch_num_samp == b)
+            exp = samplers[b % n_s]
+            if len(rows) != exp.batch_size:
+                return (f"batch {b} (segments {case['segments']}, restored in between) has {len(rows)} rows, sampler "
+                        f"{b % n_s} ({type(exp).__name__}) has batch size {exp.batch_size}")
+            if any(cal.method_samp[r] != table[type(exp).__name__] for r in rows):
+                return f"batch {b} is labelled {set(cal.method_samp[rows])}, sampler {b % n_s} is {type(exp).__name__}"
+    return None
+
+
+StandIn("C09/round-robin-restore", "C09",
+        "8 seeded lives of 2-4 history-free samplers with pairwise different batch sizes, 2-4 segments of 1-3 batches with "
+        "a restore from the checkpoint between consecutive segments: batch i (over the whole life) has the batch size "
+        "and the label of sampler i mod n", "80 lives", _c09r_cases, _c09r_check)
 
 
 def _c09v_cases(tier, seed):
@@ -587,10 +635,13 @@ StandIn("C16/surrogate-stub", "C16",
 
 def _c16b_cases(tier, seed):
     rnd = random.Random(seed + 162)
-    for _ in range(15 if tier == "quick" else 200):
-        yield {"dims": rnd.choice([1, 2, 3, 4]), "bs": rnd.randint(1, 4), "n_hist": rnd.randint(4, 12),
-               "range": rnd.choice([2, 3, 6]), "seed": rnd.randrange(10 ** 6), "space_seed": rnd.randrange(10 ** 6),
-               "loss_kind": rnd.choice(["plain", "ties", "inf"])}
+    for i in range(24 if tier == "quick" else 240):
+        c = {"dims": rnd.choice([1, 2, 3, 4]), "bs": rnd.randint(1, 4), "n_hist": rnd.randint(4, 12),
+             "range": rnd.choice([2, 3, 6]), "seed": rnd.randrange(10 ** 6), "space_seed": rnd.randrange(10 ** 6),
+             "loss_kind": rnd.choice(["plain", "ties", "inf"]), "dups": i % 3 == 2}
+        if c["dups"]:   # distinct losses, the best vector recorded several times among the best entries
+            c.update(loss_kind="plain", bs=rnd.randint(2, 4), n_hist=rnd.randint(8, 14), dims=rnd.choice([2, 3, 4]))
+        yield c
 
 
 def _c16b_check(reg, case):
@@ -598,6 +649,13 @@ def _c16b_check(reg, case):
     rnd = random.Random(case["space_seed"])
     space, lo, hi, pr = _space(rnd, case["dims"], aligned=True)
     pts, losses = _history(rnd, space, max(case["n_hist"], case["bs"]), case["loss_kind"])
+    if case.get("dups"):
+        # the same parameter vector recorded more than once among the best (a stochastic model re-evaluated at a point,
+        # deduplication passes exhausted): the lowest-loss ENTRIES are the parents, repeated or not
+        order = np.argsort(losses, kind="stable")
+        for k in range(1, min(len(order), case["bs"] + 1)):
+            if rnd.random() < 0.7:
+                pts[order[k]] = pts[order[0]]
     s = BestBatchSampler(case["bs"], random_state=case["seed"], perturbation_range=case["range"],
                          max_deduplication_passes=0)
     # the same sampler object first sees ANOTHER history of the same length (state kept between calls must not matter)
@@ -635,9 +693,9 @@ def _c16b_check(reg, case):
 
 
 StandIn("C16/best-batch", "C16",
-        "15 seeded runs: 1-4 parameters (grid-aligned bounds), histories of 4-12 points with plain / tied / infinite "
-        "losses, perturbation ranges 2/3/6: every proposal descends from one of the batch_size lowest-loss points by "
-        "whole steps within range (or is confined at a bound)", "200 runs", _c16b_cases, _c16b_check)
+        "24 seeded runs: 1-4 parameters (grid-aligned bounds), histories of 4-14 points with plain / tied / infinite "
+        "losses (every third: the best vector recorded several times), perturbation ranges 2/3/6: every proposal descends from one of the batch_size lowest-loss points by "
+        "whole steps within range (or is confined at a bound)", "240 runs", _c16b_cases, _c16b_check)
 
 
 # ================================================================================================ C09 (RL clause)
@@ -706,6 +764,11 @@ def _c09rl_check(reg, case):
     exp = [int(a) for a in case["actions"][: case["nb"] - 1]]
     if used[1:] != exp:
         return f"batches 1.. were produced by samplers {used[1:]}, the agent chose {exp} (losses {case['losses'][:6]})"
+    # the agent's indices are indices into the SUPPLIED line-up (an added bootstrap sampler takes the next free index)
+    for b, a in enumerate(exp, start=1):
+        if a < len(samplers) and all_s[used[b]] is not samplers[a]:
+            return (f"batch {b}: the agent chose index {a}, i.e. the supplied {type(samplers[a]).__name__}, but the batch "
+                    f"was produced by {type(all_s[used[b]]).__name__}")
     for b, (si, out) in enumerate(slog.log):
         if len(out) != all_s[si].batch_size:
             return f"batch {b} has {len(out)} rows, its sampler's batch size is {all_s[si].batch_size}"
@@ -717,3 +780,24 @@ StandIn("C09/rl-e2e", "C09",
         "with or without a Halton sampler, 2-5 batches: bootstrap batch by a Halton sampler, every later batch by the "
         "sampler whose index the agent chose, only supplied samplers (+bootstrap) used, batch sizes",
         "100 runs", _c09rl_cases, _c09rl_check)
+
+
+def _replay_bootstrap(reg, key, witness):
+    """RLScheduler._add_or_get_bootstrap_sampler on every line-up of 0-3 samplers (Halton / non-Halton at every position)
+    under its executable contract."""
+    import itertools
+
+    from black_it.samplers.halton import HaltonSampler
+    from black_it.samplers.random_uniform import RandomUniformSampler
+    from black_it.schedulers.rl.rl_scheduler import RLScheduler
+    for n in range(4):
+        for kinds in itertools.product([0, 1], repeat=n):
+            samplers = [HaltonSampler(batch_size=2) if k else RandomUniformSampler(batch_size=3) for k in kinds]
+            try:
+                rt.check_call(reg, key, RLScheduler._add_or_get_bootstrap_sampler, None, {"samplers": samplers})  # noqa: SLF001
+            except rt.ContractViolation as e:
+                return (f"RLScheduler._add_or_get_bootstrap_sampler({[type(x).__name__ for x in samplers]}) -> {e}")
+    return None
+
+
+REPLAY["black_it/schedulers/rl/rl_scheduler.py::RLScheduler._add_or_get_bootstrap_sampler"] = _replay_bootstrap
